@@ -207,7 +207,9 @@ type execCtx struct {
 	fed     *federation
 	svc     *serviceSpec // nil: monolith
 	errs    []execErr
+	budget  *int      // remaining object visits (nil = unlimited); the run is abandoned when it reaches zero
 	effects *[]string // mutation side effects
+	inMutation bool
 	failSvc map[string]bool // monolith only: every field owned by these services raises an error
 }
 
@@ -290,6 +292,12 @@ func copyPath(p []interface{}, e interface{}) []interface{} {
 
 // execSelection returns (object, ok); ok=false: a non-null child was null, the object itself must become null.
 func (x *execCtx) execSelection(objType string, e *entity, ss ast.SelectionSet, path []interface{}, serial bool) (*OJ, bool) {
+	if x.budget != nil {
+		*x.budget--
+		if *x.budget < 0 {
+			return ojNull, true
+		}
+	}
 	var cs []*collected
 	x.collect(objType, ss, map[string]bool{}, &cs)
 	out := &OJ{Kind: "obj"}
@@ -334,7 +342,8 @@ func canonArgs(m map[string]interface{}) string {
 
 func (x *execCtx) resolve(objType string, e *entity, f *ast.Field, fd *ast.FieldDefinition) (interface{}, string) {
 	args := f.ArgumentMap(x.vars)
-	if objType == "Mutation" && x.effects != nil {
+	if x.effects != nil && x.inMutation && (objType == "Mutation" || (x.fed != nil && x.fed.Namespace[objType])) &&
+		!(x.fed != nil && x.fed.Namespace[fd.Type.Name()]) {
 		*x.effects = append(*x.effects, f.Name+canonArgs(args))
 	}
 	// entity lookups (service schemas only)
@@ -394,19 +403,14 @@ func (x *execCtx) complete(t *ast.Type, fields []*ast.Field, raw interface{}, pa
 	if t.NonNull {
 		inner := *t
 		inner.NonNull = false
+		before := len(x.errs)
 		v, ok := x.complete(&inner, fields, raw, path)
 		if !ok {
 			return ojNull, false
 		}
 		if v.Kind == "null" {
-			// report only if nothing below already did
-			reported := false
-			for _, e := range x.errs {
-				if len(e.Path) >= len(path) && pathPrefix(path, e.Path) {
-					reported = true
-				}
-			}
-			if !reported {
+			// one error per violation: only if completing the value itself reported nothing
+			if len(x.errs) == before {
 				x.errs = append(x.errs, execErr{Msg: "null for non-null position", Path: path})
 			}
 			return ojNull, false
@@ -427,12 +431,17 @@ func (x *execCtx) complete(t *ast.Type, fields []*ast.Field, raw interface{}, pa
 			return ojNull, true
 		}
 		out := &OJ{Kind: "arr", Arr: []*OJ{}}
+		broken := false
 		for i, el := range l {
 			v, ok := x.complete(t.Elem, fields, el, copyPath(path, i))
 			if !ok {
-				return ojNull, true // a non-null element was null: the list becomes null (caller decides further)
+				broken = true // a non-null element was null: the list becomes null; the other elements are still completed
+				continue
 			}
 			out.Arr = append(out.Arr, v)
+		}
+		if broken {
+			return ojNull, true
 		}
 		return out, true
 	}
@@ -496,6 +505,7 @@ func (x *execCtx) execOperation(op *ast.OperationDefinition) *OJ {
 	root := "Query"
 	if op.Operation == ast.Mutation {
 		root = "Mutation"
+		x.inMutation = true
 	}
 	v, ok := x.execSelection(root, x.data.get(root, ""), op.SelectionSet, nil, op.Operation == ast.Mutation)
 	if !ok {
